@@ -15,6 +15,7 @@ import (
 	"fmt"
 	"math/rand"
 	"path/filepath"
+	"strings"
 
 	"verifharness/wire"
 )
@@ -23,7 +24,7 @@ import (
 type ssCfg struct {
 	Kind    string `json:"kind"`              // "os" (sftp.NewServer on a scratch tree) | "rs" (sftp.NewRequestServer, counting handlers)
 	Alloc   bool   `json:"alloc,omitempty"`   // WithAllocator / WithRSAllocator
-	WorkDir bool   `json:"workdir,omitempty"` // os: WithServerWorkingDirectory(tree) + relative paths; rs: WithStartDirectory("/") + relative paths
+	WorkDir bool   `json:"workdir,omitempty"` // os: WithServerWorkingDirectory(tree[/Start]) + relative paths; rs: WithStartDirectory(Start or "/") + relative paths
 	MaxTx   uint32 `json:"maxtx,omitempty"`   // WithMaxTxPacket / WithRSMaxTxPacket
 	Tree    string `json:"tree,omitempty"`    // "" standard tree | "empty"
 	InMem   bool   `json:"inmem,omitempty"`   // rs only: the package's own InMemHandler (witness cases; no handler oracles)
@@ -31,6 +32,35 @@ type ssCfg struct {
 	// object's serial number) return an error from their FIRST Close.
 	CloseErr     int    `json:"close_err,omitempty"`
 	CloseErrSeed uint32 `json:"close_err_seed,omitempty"`
+	// os only: sftp.ReadOnly().  Every request that would modify something must be answered
+	// PERMISSION_DENIED and the served tree must end exactly as it began, whatever the stream.
+	RO bool `json:"ro,omitempty"`
+	// os only: sftp.WithDebug(w), w a recording writer: the end-of-Serve sweep reports the handles
+	// left open through it (and must still close each of them exactly once).
+	Debug bool `json:"debug,omitempty"`
+	// Start is a clean absolute slash path ("/home/u").  rs: WithStartDirectory(Start), the standard tree
+	// lives below Start in the handlers' name space (absolute session paths are Start/<rel>, with WorkDir
+	// the session uses relative paths).  os: the standard tree lives in <scratch tree>/Start, which with
+	// WorkDir is the working directory.
+	Start string `json:"start,omitempty"`
+	// rs only: comma-separated optional interfaces the handlers / handler objects do NOT implement:
+	//   closer      reader, writer, read-writer and lister objects have no Close method (no io.Closer)
+	//   terr        reader, writer and read-writer objects have no TransferError method
+	//   alt         closer / terr only hit the objects with an even serial number (mixed population)
+	//   openfile    FilePut is not an OpenFileWriter (read-write opens go through Filewrite)
+	//   lstat       FileList is not an LstatFileLister (LSTAT is served as Stat)
+	//   posixrename FileCmd is not a PosixRenameFileCmder (posix-rename is served as Rename)
+	//   statvfs     FileCmd is not a StatVFSFileCmder (statvfs is answered OP_UNSUPPORTED)
+	Without string `json:"without,omitempty"`
+}
+
+func (c ssCfg) without(tok string) bool {
+	for _, t := range strings.Split(c.Without, ",") {
+		if t == tok {
+			return true
+		}
+	}
+	return false
 }
 
 func (c ssCfg) String() string {
@@ -53,16 +83,31 @@ func (c ssCfg) String() string {
 	if c.CloseErr != 0 {
 		s += fmt.Sprintf("+closeerr%d", c.CloseErr)
 	}
+	if c.RO {
+		s += "+readonly"
+	}
+	if c.Debug {
+		s += "+debug"
+	}
+	if c.Start != "" {
+		s += "+start=" + c.Start
+	}
+	if c.Without != "" {
+		s += "+without=" + c.Without
+	}
 	return s
 }
 
 // ssStep is one request of a session program.
 type ssStep struct {
-	Op  string `json:"op"`           // init open close read write fstat fsetstat opendir readdir stat lstat mkdir rmdir remove rename symlink readlink realpath setstat ext
-	P1  string `json:"p1,omitempty"` // tree-relative path
-	P2  string `json:"p2,omitempty"`
-	H   int    `json:"h,omitempty"`  // >0: index of the step whose HANDLE reply supplies the handle; 0: the literal HL
-	HL  string `json:"hl,omitempty"` // literal handle string (never-issued handles)
+	Op string `json:"op"`           // init open close read write fstat fsetstat opendir readdir stat lstat mkdir rmdir remove rename symlink readlink realpath setstat ext
+	P1 string `json:"p1,omitempty"` // tree-relative path
+	P2 string `json:"p2,omitempty"`
+	H  int    `json:"h,omitempty"`  // >0: index of the step whose HANDLE reply supplies the handle; 0: the literal HL
+	HL string `json:"hl,omitempty"` // literal handle string (never-issued handles)
+	// Sp (with H > 0): a look-alike SPELLING of the issued handle is sent instead of it — a string that was
+	// never issued although it reads like the issued one ("01", "+1", "1 ", …: ssSpell)
+	Sp  string `json:"sp,omitempty"`
 	Pf  uint32 `json:"pf,omitempty"` // OPEN pflags
 	Off uint64 `json:"off,omitempty"`
 	Len uint32 `json:"len,omitempty"` // READ length / WRITE data length / attribute size
@@ -71,6 +116,35 @@ type ssStep struct {
 	// Burst > 1: the request is sent Burst times (distinct ids) in ONE write, i.e. pipelined, and the
 	// Burst replies are collected afterwards.  Only for requests whose handle was issued earlier.
 	Burst int `json:"burst,omitempty"`
+}
+
+// ssSpellings are the look-alike spellings of a handle string h; none of them is h itself.
+var ssSpellings = []string{"lead0", "lead00", "plus", "minus", "space-before", "space-after", "nul-after", "hex", "point0", "newline-after"}
+
+func ssSpell(h, sp string) string {
+	switch sp {
+	case "lead0":
+		return "0" + h
+	case "lead00":
+		return "00" + h
+	case "plus":
+		return "+" + h
+	case "minus":
+		return "-" + h
+	case "space-before":
+		return " " + h
+	case "space-after":
+		return h + " "
+	case "nul-after":
+		return h + "\x00"
+	case "hex":
+		return "0x" + h
+	case "point0":
+		return h + ".0"
+	case "newline-after":
+		return h + "\n"
+	}
+	return h
 }
 
 // ssBurstID is the request id of copy k of a burst step.
@@ -107,9 +181,9 @@ func ssPath(cfg ssCfg, tree, rel string) string {
 		}
 		return rel
 	case cfg.Kind == "os":
-		return filepath.Join(tree, rel)
+		return filepath.Join(tree, cfg.Start, rel)
 	default:
-		return "/" + rel
+		return cfg.Start + "/" + rel
 	}
 }
 
@@ -135,6 +209,7 @@ func (s ssStep) frame(i int, cfg ssCfg, tree string, handles map[int]string) []b
 		} else {
 			h = fmt.Sprintf("unissued-%d", s.H) // the open failed: a never-issued handle
 		}
+		h = ssSpell(h, s.Sp)
 	}
 	at := wire.St{Flags: s.AF, Size: uint64(s.Len), Perm: 0o640, Atime: 1_500_000_000, Mtime: 1_500_000_000}
 	if s.AF&wire.AExt != 0 {
@@ -311,7 +386,9 @@ func ssGen(rnd *rand.Rand, o ssGenOpts) []ssStep {
 			k = 40 + rnd.Intn(60)
 		}
 		if o.Stale && rnd.Intn(3) == 0 {
-			switch s := rnd.Intn(5); {
+			switch s := rnd.Intn(6); {
+			case s == 5 && len(open) > 0: // a look-alike spelling of a LIVE handle: never issued, to be refused, the handle stays
+				steps = append(steps, ssStep{Op: pick(append([]string{"close"}, hreqs...)), H: open[rnd.Intn(len(open))].step, Sp: pick(ssSpellings), Off: uint64(rnd.Intn(8)), Len: uint32(1 + rnd.Intn(8))})
 			case s == 0: // an open that fails
 				doOpen(kinds[rnd.Intn(4)], true)
 			case s == 1 && len(closed) > 0: // repeated close
@@ -409,6 +486,26 @@ func ssGenChurn(rnd *rand.Rand, closeAll bool) []ssStep {
 	steps := []ssStep{{Op: "init"}}
 	add := func(s ssStep) int { steps = append(steps, s); return len(steps) - 1 }
 	keeper := add(ssStep{Op: "open", P1: "b.bin", Pf: wire.FRead})
+	// every kind of failing open, once: missing, handler error, missing parent, a directory opened for
+	// writing, exclusive creation of an existing file, no access flags, a file as path component; OPENDIR of
+	// a missing name, of a regular file, of a link to one, handler error.  Each is followed by a request
+	// naming the handle it did not issue, and the block by requests naming the handle NUMBERS a failed open
+	// might have kept behind the client's back.
+	failing := []ssStep{
+		{Op: "open", P1: "nope", Pf: wire.FRead}, {Op: "open", P1: "err/f", Pf: wire.FRead}, {Op: "open", P1: "nodir/f", Pf: wire.FWrite | wire.FCreat | wire.FTrunc},
+		{Op: "open", P1: "d", Pf: wire.FWrite | wire.FCreat}, {Op: "open", P1: "a.txt", Pf: wire.FWrite | wire.FCreat | wire.FExcl}, {Op: "open", P1: "a.txt", Pf: 0},
+		{Op: "open", P1: "d/x/y", Pf: wire.FRead}, {Op: "open", P1: "nope", Pf: wire.FRead | wire.FWrite},
+		{Op: "opendir", P1: "nope"}, {Op: "opendir", P1: "a.txt"}, {Op: "opendir", P1: "ln"}, {Op: "opendir", P1: "err/d"}, {Op: "opendir", P1: "d/x"},
+	}
+	rnd.Shuffle(len(failing), func(a, b int) { failing[a], failing[b] = failing[b], failing[a] })
+	for _, f := range failing {
+		i := add(f)
+		add(ssStep{Op: []string{"fstat", "read", "close", "readdir"}[rnd.Intn(4)], H: i, Len: 4})
+	}
+	for n := 2; n <= 6; n++ {
+		add(ssStep{Op: []string{"read", "fstat", "write", "readdir"}[rnd.Intn(4)], HL: fmt.Sprint(n), Len: 4})
+		add(ssStep{Op: "close", HL: fmt.Sprint(n)})
+	}
 	kinds := []string{"r", "w", "rw", "dir"}
 	rnd.Shuffle(len(kinds), func(a, b int) { kinds[a], kinds[b] = kinds[b], kinds[a] })
 	nNew := 0
@@ -448,6 +545,13 @@ func ssGenChurn(rnd *rand.Rand, closeAll bool) []ssStep {
 		if kind == "rw" {
 			use(1, 16)
 		}
+		// look-alike spellings of the live handle: refused, and the handle stays open
+		for _, sp := range []string{ssSpellings[rnd.Intn(len(ssSpellings))], ssSpellings[rnd.Intn(len(ssSpellings))]} {
+			op := map[string]string{"r": "read", "w": "write", "rw": "write", "dir": "readdir"}[kind]
+			add(ssStep{Op: op, H: h, Sp: sp, Len: 4})
+			add(ssStep{Op: "close", H: h, Sp: sp})
+		}
+		use(1, 0)
 		add(ssStep{Op: "read", H: keeper, Off: 0, Len: 8})
 		add(ssStep{Op: "close", H: h})
 		use(seq/2, 0)
@@ -463,6 +567,77 @@ func ssGenChurn(rnd *rand.Rand, closeAll bool) []ssStep {
 	}
 	if closeAll {
 		add(ssStep{Op: "close", H: keeper})
+	}
+	return steps
+}
+
+// ssGenReadOnly is the "read-only" flavour: every request kind that modifies something, and OPEN with
+// every way of asking for a modification (write, create, truncate — alone, with read, with the flags
+// that modify nothing: append, excl), interleaved with reads, on existing and on new names; handles of
+// opens that may or may not succeed are used, some are closed, some left open.  Against a ReadOnly()
+// server everything modifying must be refused and the tree stay as it was; against any other server
+// it is one more valid session.
+//
+// nOps / nCmds: how many of the 15 OPEN variants and of the 17 path requests are used (PRNG choice; 0 = all).
+func ssGenReadOnly(rnd *rand.Rand, closeAll bool, nOps, nCmds int) []ssStep {
+	steps := []ssStep{{Op: "init"}}
+	add := func(s ssStep) int { steps = append(steps, s); return len(steps) - 1 }
+	var opened []int
+	open := func(p string, pf uint32) int {
+		i := add(ssStep{Op: "open", P1: p, Pf: pf})
+		opened = append(opened, i)
+		return i
+	}
+	R, W, A, C, T, X := uint32(wire.FRead), uint32(wire.FWrite), uint32(wire.FAppend), uint32(wire.FCreat), uint32(wire.FTrunc), uint32(wire.FExcl)
+	h1 := open("a.txt", R)
+	add(ssStep{Op: "read", H: h1, Off: 0, Len: 16})
+	type op struct {
+		p  string
+		pf uint32
+	}
+	ops := []op{{"d/x", R | T}, {"nA", C}, {"nB", R | C}, {"d/y", T}, {"b.bin", W}, {"b.bin", A}, {"b.bin", R | A}, {"a.txt", X}, {"a.txt", R | X},
+		{"nC", R | C | X}, {"b.bin", W | A}, {"nD", W | C | T}, {"a.txt", R | W}, {"d/x", C | T}, {"b.bin", R | W | A | C | T}}
+	rnd.Shuffle(len(ops), func(a, b int) { ops[a], ops[b] = ops[b], ops[a] })
+	if nOps > 0 && nOps < len(ops) {
+		ops = ops[:nOps]
+	}
+	for _, o := range ops {
+		h := open(o.p, o.pf)
+		switch rnd.Intn(4) {
+		case 0:
+			add(ssStep{Op: "read", H: h, Off: 0, Len: 8})
+		case 1:
+			add(ssStep{Op: "write", H: h, Off: uint64(rnd.Intn(8)), Len: uint32(1 + rnd.Intn(8))})
+		case 2:
+			add(ssStep{Op: "fsetstat", H: h, AF: wire.ASize, Len: uint32(rnd.Intn(6))})
+		}
+		if rnd.Intn(3) == 0 {
+			add(ssStep{Op: "close", H: h})
+			opened = opened[:len(opened)-1]
+		}
+	}
+	add(ssStep{Op: "write", H: h1, Off: 2, Len: 5}) // on a read handle
+	add(ssStep{Op: "fsetstat", H: h1, AF: wire.APerm})
+	add(ssStep{Op: "fsetstat", H: h1, AF: wire.ASize, Len: 1})
+	cmds := []ssStep{{Op: "setstat", P1: "a.txt", AF: wire.ASize, Len: 3}, {Op: "setstat", P1: "d", AF: wire.APerm}, {Op: "mkdir", P1: "nE"}, {Op: "rmdir", P1: "e"}, {Op: "remove", P1: "d/y"},
+		{Op: "remove", P1: "ln"}, {Op: "rename", P1: "a.txt", P2: "nF"}, {Op: "symlink", P1: "a.txt", P2: "nG"}, {Op: "ext", Ext: "posix-rename@openssh.com", P1: "b.bin", P2: "nH"},
+		{Op: "ext", Ext: "hardlink@openssh.com", P1: "b.bin", P2: "nI"}, {Op: "stat", P1: "a.txt"}, {Op: "lstat", P1: "ln"}, {Op: "readlink", P1: "ln"}, {Op: "realpath", P1: ""},
+		{Op: "ext", Ext: "statvfs@openssh.com", P1: "d"}, {Op: "ext", Ext: "unknown@example.com", P1: "a.txt"}, {Op: "fstat", H: h1}}
+	rnd.Shuffle(len(cmds), func(a, b int) { cmds[a], cmds[b] = cmds[b], cmds[a] })
+	if nCmds > 0 && nCmds < len(cmds) {
+		cmds = cmds[:nCmds]
+	}
+	for _, c := range cmds {
+		add(c)
+	}
+	d := add(ssStep{Op: "opendir", P1: "d"})
+	opened = append(opened, d)
+	add(ssStep{Op: "readdir", H: d})
+	add(ssStep{Op: "read", H: h1, Off: 0, Len: 32})
+	if closeAll {
+		for _, h := range opened {
+			add(ssStep{Op: "close", H: h})
+		}
 	}
 	return steps
 }
